@@ -118,6 +118,7 @@ class Engine:
         self.ops_done = 0
         self.quarantined = 0
         self._latest = {}
+        self.tooled_inplace = set()
         self._recv_cache = {}
         self._enter_cache = {}
         self._gen_created = {}
@@ -182,6 +183,13 @@ class Engine:
             elif kind in ("tweak", "rewrite"):
                 from ptera.selector import select
 
+                if op["sels"][0]["levels"][-1]["fn"] not in self.tooled_inplace:
+                    # overlays act on tooled functions only; without the tool
+                    # operation (e.g. dropped by the minimiser) this is a no-op
+                    rec.dead = True
+                    rec.strs = strs
+                    self.probes[op["id"]] = rec
+                    return "noop-untooled"
                 rec.obj = None
                 sel = select(strs[0], env=env)
                 how = op["how"]
@@ -330,6 +338,7 @@ class Engine:
             if op.get("how") == "inplace":
                 ptera.tooled.inplace(f)
                 self.sim.orig_code[op["fn"]] = f.__code__
+                self.tooled_inplace.add(op["fn"])
             else:
                 sysv.tooled[op["fn"]] = ptera.tooled(f)
         except BaseException as e:
